@@ -743,10 +743,32 @@ impl Xot {
     }
 
     // returns whether anything was removed
+    // an element in no namespace that does not declare the empty prefix
+    // itself: in the scope of a default namespace the serializer has to
+    // undeclare that default for it
+    fn is_in_no_namespace_without_default(&self, node: Node) -> bool {
+        self.element(node).is_some_and(|element| {
+            self.namespace_for_name(element.name()) == self.no_namespace_id
+                && !self.namespaces(node).contains_key(self.empty_prefix_id)
+        })
+    }
+
+    fn is_undeclared_default_element(
+        &self,
+        node: Node,
+        fullname_serializer: &FullnameSerializer,
+    ) -> bool {
+        self.is_in_no_namespace_without_default(node) && fullname_serializer.has_default_namespace()
+    }
+
     fn deduplicate_namespaces_pass(&mut self, node: Node) -> bool {
         let mut fullname_serializer = FullnameSerializer::new(self, vec![]);
         let mut fixup_nodes = Vec::new();
         let mut deduplicate_tracker = DeduplicateTracker::new();
+        // elements in no namespace that sit in the scope of a default
+        // namespace; the serializer undeclares the default namespace for
+        // those, so nothing below them can rely on it
+        let mut undeclared_default = Vec::new();
         // determine nodes we need to fix up
         for edge in self.traverse(node) {
             match edge {
@@ -764,10 +786,19 @@ impl Xot {
                         // In fact if we remove them first the push will fail to create
                         // a new entry in the namespace stack, as prefixes can become empty
                         fullname_serializer.push(self.namespace_declarations(node));
+                        if self.is_undeclared_default_element(node, &fullname_serializer) {
+                            fullname_serializer
+                                .push(vec![(self.empty_prefix_id, self.no_namespace_id)]);
+                            undeclared_default.push(node);
+                        }
                     }
                 }
                 NodeEdge::End(node) => {
                     if self.is_element(node) {
+                        if undeclared_default.last() == Some(&node) {
+                            undeclared_default.pop();
+                            fullname_serializer.pop(true);
+                        }
                         // to_prefix is only used to determine whether to pop
                         // so should be okay to send here
                         fullname_serializer.pop(self.has_namespace_declarations(node));
@@ -799,10 +830,13 @@ impl Xot {
                                 .any(|prefix| {
                                     !self.descendants(node).any(|descendant| {
                                         self.is_element(descendant)
-                                            && matches!(
+                                            && (matches!(
                                                 self.namespaces(descendant).get(prefix),
                                                 Some(ns) if *ns != namespace_id
-                                            )
+                                            ) || (prefix == self.empty_prefix_id
+                                                && self.is_in_no_namespace_without_default(
+                                                    descendant,
+                                                )))
                                     })
                                 })
                         };
